@@ -4,6 +4,11 @@
   outDirs            : the list literal of the first `for directory in [...]` loop of
                        `Documentation.writeout` that calls `.mkdir` (ford/output.py)
   libDirs            : the list literal of the loop that calls `copytree(loc / directory, ...)`
+  copytreeSymlinks / copytreeIgnoreDangling / copytreeDirsExistOk
+                     : the keyword arguments `symlinks`, `ignore_dangling_symlinks`, `dirs_exist_ok` of
+                       the `shutil.copytree` call inside the module-level wrapper `copytree` (ford/output.py;
+                       absent = the library default False), which decide what the copy of a tree that
+                       contains symbolic links consists of; the copy function must be `shutil.copy`
   fixedNames         : every string constant that `writeout`, `BasePage` subclasses (`out_page`,
                        `template_path` of ListTopPage), `print_output` and `dump_modules` join to the
                        output directory with `/`
@@ -23,6 +28,39 @@ def _find_func(tree, cls, name):
                 if isinstance(f, ast.FunctionDef) and f.name == name:
                     return f
     raise LookupError(f"{cls}.{name} not found")
+
+
+def copytree_kwargs(tree) -> dict:
+    """Keyword arguments of the one `shutil.copytree(...)` call in the module-level function `copytree`."""
+    fn = next((n for n in tree.body if isinstance(n, ast.FunctionDef) and n.name == "copytree"), None)
+    if fn is None:
+        raise LookupError("module-level function copytree not found in ford/output.py")
+    calls = [n for n in ast.walk(fn) if isinstance(n, ast.Call) and ast.unparse(n.func) == "shutil.copytree"]
+    if len(calls) != 1:
+        raise LookupError(f"expected exactly one shutil.copytree call in ford.output.copytree, found {len(calls)}")
+    call = calls[0]
+    if len(call.args) > 2:
+        raise LookupError("shutil.copytree is called with more than two positional arguments")
+    res = {"symlinks": False, "ignore_dangling_symlinks": False, "dirs_exist_ok": False}
+    copy_fn = "shutil.copy2"
+    for k in call.keywords:
+        if k.arg is None:
+            raise LookupError("shutil.copytree is called with **kwargs")
+        if k.arg == "copy_function":
+            copy_fn = ast.unparse(k.value)
+        elif k.arg in res:
+            if not (isinstance(k.value, ast.Constant) and isinstance(k.value.value, bool)):
+                raise LookupError(f"keyword {k.arg} of shutil.copytree is not a Boolean literal")
+            res[k.arg] = k.value.value
+        elif k.arg == "ignore":
+            raise LookupError("shutil.copytree is called with an ignore= callback (not modelled)")
+    if copy_fn != "shutil.copy":
+        raise LookupError(f"copy_function of shutil.copytree is {copy_fn}, the model assumes shutil.copy")
+    return res
+
+
+def lean_bool(b: bool) -> str:
+    return "true" if b else "false"
 
 
 def lean_str(s: str) -> str:
@@ -70,7 +108,9 @@ def extract(repo: Path | None = None) -> dict:
                     pages[node.name] = st.value.value
     if not pages:
         raise LookupError("out_page constants of the list pages not found")
-    return {"symbolReplacements": repl, "outDirs": out_dirs, "libDirs": lib_dirs,
+    kw = copytree_kwargs(out)
+    return {"copytreeSymlinks": kw["symlinks"], "copytreeIgnoreDangling": kw["ignore_dangling_symlinks"],
+            "copytreeDirsExistOk": kw["dirs_exist_ok"], "symbolReplacements": repl, "outDirs": out_dirs, "libDirs": lib_dirs,
             "fixedNames": sorted(set(fixed)), "listPages": sorted(pages.values())}
 
 
@@ -78,6 +118,12 @@ def generate(repo: Path | None = None) -> dict:
     t = extract(repo)
     L = ["/- GENERATED by translate/c19.py from ford/sourceform.py and ford/output.py - do not edit -/",
          "import FordModel.Basic.Chars", "namespace Ford.Generated.C19", "",
+         "/-- `symlinks=` of the `shutil.copytree` call in `ford.output.copytree` (links kept as links) -/",
+         "def copytreeSymlinks : Bool := " + lean_bool(t["copytreeSymlinks"]), "",
+         "/-- `ignore_dangling_symlinks=` of the same call -/",
+         "def copytreeIgnoreDangling : Bool := " + lean_bool(t["copytreeIgnoreDangling"]), "",
+         "/-- `dirs_exist_ok=` of the same call -/",
+         "def copytreeDirsExistOk : Bool := " + lean_bool(t["copytreeDirsExistOk"]), "",
          "/-- the dict literal of `NameSelector.get_name` -/",
          "def symbolReplacements : List (Char × Str) := ["
          + ", ".join(f"('{k}', {lean_str(v)})" if k not in "'\\" else f"(Char.ofNat {ord(k)}, {lean_str(v)})" for k, v in t["symbolReplacements"]) + "]", "",
